@@ -63,9 +63,9 @@ let run (op_full : string) (a : string array) : string =
   | "num_encode" -> "ok " ^ hex (compact_encode (parse_num a.(0)))
   | "num_decode" -> show_res show_num (num_decode (unhex a.(0)))
   | "num_decode_old" -> show_res show_num (num_decode_old (unhex a.(0)))
-  | "num_cmp" -> "ok =" ^ show_cmp (num_cmp (parse_num a.(0)) (parse_num a.(1)))
+  | "num_cmp" -> show_res (fun c -> "=" ^ show_cmp c) (num_cmp_rs_res (parse_num a.(0)) (parse_num a.(1)))
   | "num_cmp_old" -> "ok =" ^ show_cmp (num_cmp_old (parse_num a.(0)) (parse_num a.(1)))
-  | "num_eq" -> "ok " ^ show_bool (num_eqb (parse_num a.(0)) (parse_num a.(1)))
+  | "num_eq" -> show_res show_bool (num_eqb_rs_res (parse_num a.(0)) (parse_num a.(1)))
   | "num_as_i64" -> (match as_i64 (parse_num a.(0)) with Some z -> "ok =" ^ ZA.to_string (zt_of_z z) | None -> "ok =none")
   | "num_as_u64" -> (match as_u64 (parse_num a.(0)) with Some n -> "ok =" ^ ZA.to_string (zt_of_n n) | None -> "ok =none")
   | "num_as_f64" -> "ok =" ^ ZA.format "%016x" (zt_of_n (as_f64 (parse_num a.(0))))
